@@ -302,6 +302,15 @@ impl FetchState {
     {
         match refs_at {
             Some(refs_at) => {
+                // N.b. a remote may be announced more than once, only
+                // its last announcement counts.
+                let refs_at = refs_at
+                    .into_iter()
+                    .map(|RefsAt { remote, at }| (remote, at))
+                    .collect::<BTreeMap<_, _>>()
+                    .into_iter()
+                    .map(|(remote, at)| RefsAt { remote, at })
+                    .collect::<Vec<_>>();
                 let sigrefs_at = stage::SigrefsAt {
                     remote,
                     delegates: delegates.clone(),
